@@ -21,6 +21,13 @@ def cases(seed, tier, broken=()):
                     "tau_max": int(rng.integers(1, max(2, nt // 3))) if i % 3 else int(rng.integers(1, 8)), "np_int": bool(i % 7 == 3),
                     "npc": npc, "k": int(rng.integers(1, npc + 1)), "center": bool(rng.random() < 0.7), "standardize": bool(rng.random() < 0.3),
                     "offset": float(rng.choice([0.0, 5.0]))})
+    # propagating (noise-free or nearly so) waves sampled over whole periods: the two PCs of each wave are in quadrature and have
+    # EQUAL variance, so the zero-lag covariance of the retained PCs has repeated eigenvalues and its decomposition is an arbitrary
+    # rotation inside each pair (decided by rounding: several phases / resolutions per run)
+    for i in range({"quick": 10, "thorough": 60, "search": 40}[tier]):
+        out.append({"kind": "wave", "mseed": int(rng.integers(0, 2**31)), "n": int([240, 120, 360][i % 3]), "p": int([16, 12, 20][i % 3]), "tau_max": int([10, 5, 8, 3][i % 4]),
+                    "np_int": False, "npc": 4, "k": int([4, 2, 3][i % 3]), "center": True, "standardize": False, "offset": 0.0,
+                    "noise": float([0.0, 0.0, 1e-9][i % 3])})
     return out
 
 
@@ -32,6 +39,14 @@ def make(case):
     rng = np.random.default_rng(case["mseed"])
     n, p = case["n"], case["p"]
     r = case["npc"] + 1
+    if case["kind"] == "wave":
+        t = np.arange(n)[:, None]
+        x = np.arange(p)[None, :]
+        ph = rng.uniform(0, 2 * np.pi, size=2)
+        per = [(24, 60), (12, 40), (30, 60)][case["mseed"] % 3]
+        Z = np.cos(2 * np.pi * (x / p - t / per[0]) + ph[0]) + 0.5 * np.cos(2 * np.pi * (2 * x / p - t / per[1]) + ph[1])
+        Z = Z + case.get("noise", 0.0) * rng.normal(size=Z.shape)
+        return xr.DataArray(Z, dims=("time", "x"), coords={"time": np.arange(n), "x": np.arange(p)}, name="v")
     if case["kind"] == "white":
         phi = np.zeros(r)
     elif case["kind"] == "anti":
